@@ -339,6 +339,22 @@ def r_stmt(s, ind, twin, ctx):
         return [f"{ind}assert {r_expr(s[1], twin)}"]
     if k in ("global", "nonlocal"):
         return [f"{ind}{k} {s[1]}"]
+    if k == "declin":
+        # a global / nonlocal declaration that sits inside a compound statement (always the first
+        # statement of the function, so that no use of the name precedes it)
+        how, (dk, dv) = s[1], s[2]
+        d = f"{ind}{IND}{dk} {dv}"
+        if how == "except":
+            return [f"{ind}try:", f"{ind}{IND}pass", f"{ind}except Boom:", d]
+        if how == "finally":
+            return [f"{ind}try:", f"{ind}{IND}pass", f"{ind}finally:", d]
+        if how == "if":
+            return [f"{ind}if 0:", d]
+        if how == "else":
+            return [f"{ind}while 0:", f"{ind}{IND}pass", f"{ind}else:", d]
+        if how == "try":
+            return [f"{ind}try:", d, f"{ind}finally:", f"{ind}{IND}pass"]
+        raise ValueError(s)
     raise ValueError(s)
 
 
@@ -527,7 +543,8 @@ def bound_names(fn):
 
 
 def declared_scope_names(fn):
-    return {s[1] for s in fn["body"] if s[0] in ("global", "nonlocal")}
+    return {s[1] for s in fn["body"] if s[0] in ("global", "nonlocal")} | {
+        s[2][1] for s in fn["body"] if s[0] == "declin"}
 
 
 def features(fn):
@@ -1086,6 +1103,11 @@ def functions(flags=None, want_gen=None):
                 ("assign", [("n", "cl")], ("bin", "+", ("var", "cl"), ("int", 1))),
                 ("aug", ("n", "cl"), "+", ("int", 2)),
             ])))
+        if fl.global_decl and decls:
+            # sometimes the declaration sits inside a handler / finally / else / if block
+            decls = [("declin", draw(st.sampled_from(["except", "finally", "if", "else", "try"])), d)
+                     if draw(st.integers(0, 2)) == 0 else d for d in decls]
+            decls.sort(key=lambda d: d[0] == "declin")  # plain declarations first
         body = decls + body
         fn = {"name": "f", "params": params, "body": body, "gen": gen, "closure": closure_vars}
         # names read (or deleted) but bound nowhere in f would be *globals*; make them genuine
